@@ -557,7 +557,7 @@ def big_file_cases(base, quick):
         ([A, B, Cc, 10] * 1100) + z9 + ([B, A] * 2500),
     ]
     if not quick:
-        contents += [[A] * 4096 + z9 + [B] * 4096, [A] * 12289 + z9 + [B] * 8193 + z9 + [Cc] * 2047, z9 * 3000,
+        contents += [[A] * 4096 + z9 + [B] * 4096, [A] * 12289 + z9 + [B] * 8193 + z9 + [Cc] * 2047, z9 * 120 + [A] * 4100 + z9 * 120,
                      [A] * 2047 + z9 + [B] * 2048 + z9 + [Cc] * 6145 + z9]
     lit_ = lambda b: {"k": "lit", "s": list(b), "ci": False, "neg": False}
     withs = [list(b"A-LONGER-REPLACEMENT-TEXT"), [], [81]]
@@ -585,7 +585,8 @@ def c06(ctx):
     ctx.technique = "file-system state machine spec/FS.tla model-checked (mode invariants, splice lemma); every behaviour replayed through RunFiles"
     cases = ctx.gen_cases("C06")
     cases += big_file_cases(max(c["id"] for c in cases) + 1, ctx.tier == "quick")
-    docs, st = run_sharded_machine(ctx, "FS", cases, ["OnlyAllowedFilesChange", "SpliceLemma", "LitScanAgrees", "Emit"])
+    docs, st = run_sharded_machine(ctx, "FS", cases, ["OnlyAllowedFilesChange", "SpliceLemma", "LitScanAgrees", "Emit"],
+                                   timeout=900 if ctx.tier == "quick" else 2400)
     if len(docs) != len(cases):
         raise Undecided("FS.tla emitted %d final states for %d cases" % (len(docs), len(cases)))
     ctx.add_mc("FS", st, "OnlyAllowedFilesChange and SpliceLemma in every state of every behaviour of the file-system machine")
